@@ -4,8 +4,9 @@
  *
  * case:  "<ring> <strict> ; ops ; beh0 | beh1 | ..."   (see ocaml/drv_c14.ml)
  *   ring=0: io_uring_setup is made to fail with ENOSYS (no control ring).
- * ops:   O<sl>,<kind s|p|q|e>  U<src>,<dst>  X<sl>        descriptors (slots)
+ * ops:   O<sl>,<kind s|p|q|e|t>  U<src>,<dst>  X<sl>      descriptors (slots); t = TCP loopback pair
  *        K<sl> D<sl> H<sl> G<sl> L<sl>    peer writes / drain / peer closes / fill / unfill
+ *        B<sl> W<sl>                      peer sends urgent (OOB) data (t) / peer shutdown(SHUT_WR) (s, t)
  *        I<sl> J<sl>                       uv_poll_init / uv__io_init  (handle = next index)
  *        S<h>,<m> T<h>,<m> C<h> F<h> A<h>  start / stop / close / feed / active
  *        R                                 uv_run(UV_RUN_NOWAIT)
@@ -25,6 +26,10 @@
 #include <sys/epoll.h>
 #include <sys/eventfd.h>
 #include <sys/socket.h>
+#include <sys/wait.h>
+#include <netinet/in.h>
+#include <netinet/tcp.h>
+#include <arpa/inet.h>
 #include <sys/syscall.h>
 #include "uv.h"
 #include "uv-common.h"
@@ -214,6 +219,18 @@ static void do_ops(char* ops, int in_cb) {
         struct file* f = calloc(1, sizeof *f); int sv[2] = { -1, -1 };
         f->kind = k; f->refs = 1; f->peer = -1;
         if (k == 's') { socketpair(AF_UNIX, SOCK_STREAM | SOCK_NONBLOCK, 0, sv); small_buffers(sv[0]); small_buffers(sv[1]); S[a].fd = sv[0]; f->peer = sv[1]; }
+        else if (k == 't') {
+          struct sockaddr_in sa; socklen_t sl = sizeof sa; int l = socket(AF_INET, SOCK_STREAM, 0), one1 = 1;
+          memset(&sa, 0, sizeof sa); sa.sin_family = AF_INET; sa.sin_addr.s_addr = htonl(INADDR_LOOPBACK);
+          bind(l, (struct sockaddr*) &sa, sizeof sa); listen(l, 1); getsockname(l, (struct sockaddr*) &sa, &sl);
+          sv[1] = socket(AF_INET, SOCK_STREAM, 0);
+          connect(sv[1], (struct sockaddr*) &sa, sizeof sa);
+          sv[0] = accept4(l, NULL, NULL, SOCK_NONBLOCK);
+          close(l);
+          fcntl(sv[1], F_SETFL, fcntl(sv[1], F_GETFL) | O_NONBLOCK);
+          setsockopt(sv[1], IPPROTO_TCP, TCP_NODELAY, &one1, sizeof one1);
+          S[a].fd = sv[0]; f->peer = sv[1];
+        }
         else if (k == 'p') { pipe2(sv, O_NONBLOCK); fcntl(sv[1], F_SETPIPE_SZ, 4096); S[a].fd = sv[0]; f->peer = sv[1]; }
         else if (k == 'q') { pipe2(sv, O_NONBLOCK); fcntl(sv[1], F_SETPIPE_SZ, 4096); S[a].fd = sv[1]; f->peer = sv[0]; }
         else { S[a].fd = eventfd(0, EFD_NONBLOCK); }
@@ -236,7 +253,7 @@ static void do_ops(char* ops, int in_cb) {
         S[a].f = NULL;
       } else printf("- ");
       break;
-    case 'K': case 'D': case 'H': case 'G': case 'L':
+    case 'K': case 'D': case 'H': case 'G': case 'L': case 'B': case 'W':
       if (sscanf(tok + 1, "%d", &a) == 1 && a >= 0 && a < MAXS && S[a].fd != -1) {
         struct file* f = S[a].f; static char junk[65536]; uint64_t one = 1; int i;
         printf("~e ");
@@ -246,7 +263,14 @@ static void do_ops(char* ops, int in_cb) {
           else if (f->kind != 'q' && f->peer != -1) write(f->peer, "x", 1);
           break;
         case 'D':
+          if (f->kind == 't') recv(S[a].fd, junk, 1, MSG_OOB);
           if (f->kind != 'q') for (i = 0; i < 64 && read(S[a].fd, junk, sizeof junk) > 0; i++) ;
+          break;
+        case 'B':
+          if (f->kind == 't' && f->peer != -1) send(f->peer, "!", 1, MSG_OOB);
+          break;
+        case 'W':
+          if ((f->kind == 't' || f->kind == 's') && f->peer != -1) shutdown(f->peer, SHUT_WR);
           break;
         case 'H':
           if (f->peer != -1) { close(f->peer); f->peer = -1; }
@@ -322,62 +346,60 @@ static void do_ops(char* ops, int in_cb) {
   }
 }
 
+static void run_case(char* line) {
+  char *p1, *p2; int i, ring = 1; struct kent ks[64]; int nk;
+  p1 = strchr(line, ';'); if (!p1) { printf("\n"); return; }
+  *p1++ = 0; p2 = strchr(p1, ';'); if (!p2) { printf("\n"); return; }
+  *p2++ = 0;
+  strict = 0;
+  sscanf(line, "%d %d", &ring, &strict);
+  nh = nbeh = cbcount = 0; ninternal = 0;
+  for (i = 0; i < MAXS; i++) { S[i].fd = -1; S[i].f = NULL; }
+  fail_uring = !ring;
+  uv_loop_init(&loop);
+  fail_uring = 0;
+  g_loop = &loop;
+  uv_prepare_init(&loop, &keep); uv_prepare_start(&keep, keep_cb);
+  quiet = 1;
+  uv_run(&loop, UV_RUN_NOWAIT);       /* registers the loop's own watchers */
+  nk = read_kernel_set(loop.backend_fd, ks, 64);
+  for (i = 0; i < nk && i < 64; i++) internal_fd[ninternal++] = ks[i].fd;
+  quiet = 0;
+  printf("ring=%d ", uv__get_internal_fields((&loop))->ctl.ringfd != -1);
+  {
+    char* s = p2;
+    for (;;) {
+      char* e = strchr(s, '|');
+      if (e) *e = 0;
+      if (nbeh < MAXB) beh[nbeh++] = s;
+      if (!e) break;
+      s = e + 1;
+    }
+  }
+  do_ops(p1, 0);
+  printf("\n");
+}
+
+/* every case runs in a child of its own: a case that corrupts the loop, leaks, hangs or
+ * makes libuv abort cannot disturb the cases behind it; it yields the line "DIED <status>" */
 int main(void) {
   static char line[1 << 16];
-  int i;
   setvbuf(stdout, NULL, _IOFBF, 1 << 16);
   signal(SIGPIPE, SIG_IGN);
   while (fgets(line, sizeof line, stdin)) {
-    char *p1, *p2; int k, ring = 1; struct kent ks[64]; int nk;
-    p1 = strchr(line, ';'); if (!p1) { printf("\n"); continue; }
-    *p1++ = 0; p2 = strchr(p1, ';'); if (!p2) { printf("\n"); continue; }
-    *p2++ = 0;
-    strict = 0;
-    sscanf(line, "%d %d", &ring, &strict);
-    nh = nbeh = cbcount = 0; ninternal = 0;
-    for (i = 0; i < MAXS; i++) { S[i].fd = -1; S[i].f = NULL; }
-    fail_uring = !ring;
-    uv_loop_init(&loop);
-    fail_uring = 0;
-    g_loop = &loop;
-    uv_prepare_init(&loop, &keep); uv_prepare_start(&keep, keep_cb);
-    quiet = 1;
-    uv_run(&loop, UV_RUN_NOWAIT);       /* registers the loop's own watchers */
-    nk = read_kernel_set(loop.backend_fd, ks, 64);
-    for (i = 0; i < nk && i < 64; i++) internal_fd[ninternal++] = ks[i].fd;
-    quiet = 0;
-    printf("ring=%d ", uv__get_internal_fields((&loop))->ctl.ringfd != -1);
-    {
-      char* s = p2;
-      for (;;) {
-        char* e = strchr(s, '|');
-        if (e) *e = 0;
-        if (nbeh < MAXB) beh[nbeh++] = s;
-        if (!e) break;
-        s = e + 1;
-      }
-    }
-    do_ops(p1, 0);
-    printf("\n");
+    pid_t pid; int st = 0;
     fflush(stdout);
-    quiet = 1;
-    for (k = 0; k < nh; k++)
-      if (H[k]->inited && !H[k]->closed) {
-        if (H[k]->kind == 'p') uv_close((uv_handle_t*) &H[k]->poll, close_cb);
-        else uv__io_close(&loop, &H[k]->raw);
-        H[k]->closed = 1;
-      }
-    uv_close((uv_handle_t*) &keep, close_cb);
-    uv_run(&loop, UV_RUN_DEFAULT);
-    uv_loop_close(&loop);
-    g_loop = NULL;
-    for (i = 0; i < MAXS; i++)
-      if (S[i].fd != -1) {
-        close(S[i].fd);
-        if (--S[i].f->refs == 0) { if (S[i].f->peer != -1) close(S[i].f->peer); free(S[i].f); }
-        S[i].fd = -1;
-      }
-    for (k = 0; k < nh; k++) free(H[k]);
+    pid = fork();
+    if (pid == 0) {
+      alarm(30);
+      run_case(line);
+      fflush(stdout);
+      _exit(0);
+    }
+    if (pid < 0 || waitpid(pid, &st, 0) < 0 || !WIFEXITED(st) || WEXITSTATUS(st) != 0) {
+      printf("%sDIED %d\n", "", st);
+      fflush(stdout);
+    }
   }
   return 0;
 }
